@@ -8,6 +8,7 @@ import CM.Ops.Refs
 import CM.Ops.Doc
 import CM.Ops.Format
 import CM.Ops.Blocks
+import CM.Ops.Inline
 namespace CM.Ops
 
 def echoOp : Op
@@ -20,6 +21,6 @@ def treeOp : Op
     | none => bad
   | _ => bad
 
-def allOps : List (String × Op) := [("echo", echoOp), ("tree", treeOp)] ++ recognizeOps ++ checkOps ++ walkOps ++ renderOps ++ emphOps ++ refsOps ++ docOps ++ formatOps ++ blocksOps
+def allOps : List (String × Op) := [("echo", echoOp), ("tree", treeOp)] ++ recognizeOps ++ checkOps ++ walkOps ++ renderOps ++ emphOps ++ refsOps ++ docOps ++ formatOps ++ blocksOps ++ inlineOps ++ parseOps
 
 end CM.Ops
